@@ -901,10 +901,7 @@ def reach_floor(ctx):
     if rules < 60:
         low['distinct rules in accepted ASTs'] = rules
     reach = ctx.extra.get('coverage', {}).get('implementation_reach', {})
-    for f, floor in (('RINGParser/MolQueryRead.py', 325), ('RINGParser/ReactionQueryRead.py', 280), ('RINGParser/Parser.py', 105)):
-        got = reach.get(f, {}).get('executed')
-        if got is not None and got < floor:
-            low['statements executed in ' + f] = got
+    # statement counts per file are reported in the evidence only (a harmless refactor changes them)
     if low and not ctx.violations and not ctx.broken and not ctx.disagreements:
         raise common.MachineryError('generator reach fell below the floor: %r' % low)
 
